@@ -84,7 +84,7 @@ def gen_deltas_case(ctx, small=False):
     n = prod(shape)
     if u < 0.08:
         data = [r.randint(-amp, amp)] * n  # constant signal
-    elif u < 0.16:
+    elif u < 0.16 and dt not in ("int8", "float16"):
         a, b = r.randint(-5, 5), r.randint(-3, 3)
         data = [a + b * k for k in range(n)]  # ramp in storage order
     else:
@@ -430,6 +430,25 @@ def oracle_paths(np, post, case):
     return None
 
 
+def ctor_guard(post):
+    """Stack's documented constructor contract: num_vectors must be positive."""
+    bad = []
+    for nv in (0, -1, -7):
+        try:
+            post.Stack(nv)
+            bad.append(dict(kind="stack_ctor", num_vectors=nv, observed="accepted"))
+        except ValueError:
+            pass
+        except Exception as e:  # noqa: BLE001
+            bad.append(dict(kind="stack_ctor", num_vectors=nv, observed=type(e).__name__))
+    for nv in (1, 2):
+        try:
+            post.Stack(nv)
+        except Exception as e:  # noqa: BLE001
+            bad.append(dict(kind="stack_ctor", num_vectors=nv, observed=type(e).__name__))
+    return bad
+
+
 def search_one(np, post, case, res):
     """All direct statements for one case; returns list of messages."""
     bad = []
@@ -459,8 +478,8 @@ def regenerate(ctx):
     try:
         post_c15.main(os.path.join(C.SRC, "post.py"), os.path.join(C.COQ, "gen", "PostC15.v"))
         return True
-    except (Unsupported, SyntaxError, OSError, KeyError, AssertionError) as e:
-        ctx.fail("translator gen/post_c15.py no longer recognises Deltas/Stack in post.py: %s" % e,
+    except Exception as e:  # noqa: BLE001 - fail closed on anything the translator trips over
+        ctx.fail("translator gen/post_c15.py no longer recognises Deltas/Stack in post.py: %s: %s" % (type(e).__name__, e),
                  dict(correspondence="gen/post_c15.py -> coq/gen/PostC15.v", error=str(e)), kind="tie", no_input=True)
         return False
 
@@ -564,6 +583,10 @@ def run(ctx):
     for i, msgs in impl_bad[:8]:
         ctx.fail("property violated on the implementation: %s; input %r" % ("; ".join(msgs), brief(cases[i])),
                  dict(input=cases[i], observed=results[i], messages=msgs), kind="impl")
+    for b in ctor_guard(post):
+        ctx.fail("Stack(num_vectors=%d): %s (a ValueError is documented for num_vectors < 1 only)" % (b["num_vectors"], b["observed"]),
+                 dict(input=b), kind="impl")
+        impl_bad.append((-1, ["constructor guard"]))
     reported = {i for i, _ in impl_bad}
     mism = sorted(set(mism), key=size_key)
     for i in mism[:8]:
@@ -581,6 +604,38 @@ def run(ctx):
         "non-mutation of the caller's array and absence of aliasing are run-time facts: differential part only",
     ]
     return C.finish(ctx, "proof")
+
+
+def replay(ctx, rp):
+    """./check C15 --replay <file>: re-run the recorded input on the implementation
+    (direct oracle) and on the model (inside Coq)."""
+    C.ensure_impl_path()
+    import importlib
+
+    import numpy as np
+
+    post = importlib.import_module("pydrobert.speech.post")
+    regenerate(ctx)
+    rep = rp.get("failure", {}).get("replay", {})
+    case = rep.get("input")
+    if not isinstance(case, dict) or case.get("kind") not in ("deltas", "stack"):
+        print(__import__("json").dumps(rp, indent=1))
+        return 0
+    res = run_impl(np, post, case)
+    msgs = search_one(np, post, case, res)
+    print("input:", case)
+    print("implementation:", res)
+    print("oracle:", msgs or "agrees with the documented result")
+    rec, why = coq_case(case, res)
+    if rec is None:
+        print("model: not comparable (%s)" % why)
+        return 1
+    kind = "d" if case["kind"] == "deltas" else "s"
+    body = "Eval vm_compute in (check_%s %s).\n" % ("deltas" if kind == "d" else "stack", rec)
+    ok, out = C.coq_make(["C15/Exec.v"])
+    ans, log = C.coq_eval(ctx, "replay", body, REQ) if ok else (None, out)
+    print("model agrees with implementation:", ans[0] if ans else "could not evaluate\n" + log[-800:])
+    return 1 if (msgs or not ans or ans[0].strip() != "true") else 0
 
 
 def brief(case):
